@@ -230,3 +230,32 @@ def normalize_opacity(H):
     if stroke == "none" and fill != "none":
         H.prove(H.close(out.fill_opacity, 1.0), "normalize_opacity.fill_opacity_folded_into_opacity")
     H.prove(out.fill == fill and out.stroke == stroke, "normalize_opacity.paints_untouched")
+
+
+@obligation((P, "C04", "C01", "C18"), "tables.attrib_defaults", functions=[])
+def attrib_defaults(H):
+    """ATTRIB_DEFAULTS and the dataclass defaults of every shape are the INITIAL VALUES of the SVG 1.1 property index
+    (an attribute is omitted from the output when it equals this table, and a missing attribute is read as this table, so
+    a wrong entry silently changes every document that relies on the default)."""
+    import dataclasses
+
+    from picosvg import svg_meta, svg_types
+
+    SPEC = {"clip-rule": "nonzero", "fill": "black", "fill-opacity": 1.0, "fill-rule": "nonzero", "stroke": "none", "stroke-width": 1.0, "stroke-linecap": "butt",
+            "stroke-linejoin": "miter", "stroke-miterlimit": 4.0, "stroke-dasharray": "none", "stroke-dashoffset": 0.0, "stroke-opacity": 1.0, "opacity": 1.0, "display": "inline"}
+    EMPTY = ("clip-path", "transform", "style", "d", "id")
+    table = dict(svg_meta.ATTRIB_DEFAULTS)
+    for k, v in SPEC.items():
+        got = table.get(k)
+        H.prove(got is not None and (float(got) == v if isinstance(v, float) else got == v), f"defaults.initial_value:{k}", detail=f"{got!r} vs {v!r}")
+    for k in EMPTY:
+        H.prove(table.get(k) == "", f"defaults.empty:{k}", detail=repr(table.get(k)))
+    H.prove(set(table) == set(SPEC) | set(EMPTY), "defaults.no_other_entries", detail=str(sorted(set(table) ^ (set(SPEC) | set(EMPTY)))))
+    # the shape dataclasses read their defaults from the same table
+    for cls in (svg_types.SVGPath, svg_types.SVGRect, svg_types.SVGCircle, svg_types.SVGEllipse, svg_types.SVGLine, svg_types.SVGPolygon, svg_types.SVGPolyline):
+        for f in dataclasses.fields(svg_types.SVGShape):
+            name = f.name.replace("_", "-")
+            if name in SPEC:
+                d = {x.name: x.default for x in dataclasses.fields(cls)}[f.name]
+                v = SPEC[name]
+                H.prove(float(d) == v if isinstance(v, float) else d == v, f"defaults.shape_field:{name}", detail=f"{cls.__name__}.{f.name} = {d!r}")
